@@ -199,11 +199,10 @@ def config_menu_small(seed=0):
     two sampler shapes. Used as the in-between noise for C04 and as pair members for C05."""
     ivs = [(1, None, None), (2, None, None), (None, 1, None), (None, 3, None), (None, None, 1),
            (None, None, 3), (None, None, 5), (1, 3, None), (2, None, 4), (None, 2, 3), (2, 3, 5)]
-    shapes = [(1, 1, None), (3, 5, 2)]
-    # first half alternates the two shapes over the interval kinds, second half the other way round,
-    # so every contiguous sub-menu mixes sampler lengths / data-source lengths / batch sizes
-    return ([iv + shapes[i % 2] for i, iv in enumerate(ivs)] +
-            [iv + shapes[(i + 1) % 2] for i, iv in enumerate(ivs)])
+    shapes = [(1, 1, None), (3, 5, 2), (3, 3, None)]
+    # three passes over the interval kinds with rotating shapes, so that every contiguous sub-menu mixes sampler lengths,
+    # data-source lengths and (absent / present) per-config batch sizes - incl. "long sampler without its own batch size"
+    return [iv + shapes[(i + k) % 3] for k in range(3) for i, iv in enumerate(ivs)]
 
 
 def pick(menu, n, seed=0):
